@@ -103,7 +103,8 @@ impl<'de> Multipart<'de> {
                     let content = {
                         let before_boundary = r.read_until(boundary);
                         let before_boundary_len = before_boundary.len();
-                        let Some((content, CRLF)) = (before_boundary_len >= CRLF.len()).then_some(unsafe {
+                        /* lazily: `then_some` would compute `len - 2` (and the slices) even when `len < 2` */
+                        let Some((content, CRLF)) = (before_boundary_len >= CRLF.len()).then(|| unsafe {
                             use std::slice::from_raw_parts;
 
                             let ptr = before_boundary.as_ptr();
